@@ -67,7 +67,8 @@ def case_iter(tier, seed, shard, nshards):
                     continue        # quick samples an eighth of the 3-statement space; thorough takes all of it
                 yield {"n": n, "ni": ni, "g": [list(c) for c in combo], "pmask": pmask,
                        "rop": rng.random() < 0.5, "perm": rng.randrange(1 << 30),
-                       "exhaustive_class": True}
+                       "exhaustive_class": True, "out": rng.choice([None, None, None, "csv", "parquet"]),
+                       "alias": rng.choice([None, None, None] + [f"S{k + 1}" for k in range(n)])}
     # sampled larger graphs
     extra = 40 if tier == "quick" else 1500
     for _ in range(extra):
@@ -84,7 +85,8 @@ def case_iter(tier, seed, shard, nshards):
                     break
             g.append([rm, im])
         yield {"n": n, "ni": ni, "g": g, "pmask": rng.randrange(1 << n), "rop": rng.random() < 0.5,
-               "perm": rng.randrange(1 << 30), "exhaustive_class": False}
+               "perm": rng.randrange(1 << 30), "exhaustive_class": False, "out": rng.choice([None, None, "csv", "parquet"]),
+               "alias": rng.choice([None, None] + [f"S{k + 1}" for k in range(n)])}
 
 
 def build(case):
@@ -94,8 +96,15 @@ def build(case):
         ops = [f"S{i + 1}" for i in range(j) if rm >> i & 1] + [f"IN_{i + 1}" for i in range(ni) if im >> i & 1]
         arrow = "<-" if case["pmask"] >> j & 1 else ":="
         stmts.append(f"S{j + 1} {arrow} {' + '.join(ops)} + {10 ** j};")
-    order = list(range(n))
+    if case.get("alias"):
+        # an extra statement that joins two inputs under an alias spelled like a result of the script: the alias is local to
+        # that statement and must not hide the later statements' reads of the result with that name
+        stmts.append(f"J0 := inner_join(IN_1 as {case['alias']}, IN_1 as Zq keep {case['alias']}#Me_1);")
+    order = list(range(len(stmts)))
     random.Random(case["perm"]).shuffle(order)
+    if case.get("alias"):
+        order.remove(n)
+        order.insert(0, n)          # written first: the alias is 'seen' before the statements that use the real name
     script = "\n".join(stmts[i] for i in order)
     return script, stmts
 
@@ -194,7 +203,17 @@ def run_case(case, emit):
     bucket = f"n={n}/g={shape}/p={case['pmask']:x}/rop={case['rop']}" if n <= 3 else \
         f"n={n}/edges={edges}/fanout={fan}/p={bin(case['pmask']).count('1')}/rop={case['rop']}/ni={ni}"
     eng.PROXY.reset()
-    status, res = eng.call(eng.run, script, st, dfs, return_only_persistent=case["rop"])
+    kw = {}
+    if case.get("out"):
+        import os
+        import shutil
+        outdir = os.path.join(eng.SCRATCH, "c13out")
+        shutil.rmtree(outdir, ignore_errors=True)
+        kw = {"output_folder": outdir, "output_format": case["out"]}
+        bucket += f"/out={case['out']}"
+    if case.get("alias"):
+        bucket += "/alias"
+    status, res = eng.call(eng.run, script, st, dfs, return_only_persistent=case["rop"], **kw)
     log = list(eng.PROXY["log"])
     emit({"v": "ctr", "ctr": {"db_events": len(log), "proxy_entered": 1 if log else 0}})
     if status == "exc":
@@ -205,8 +224,14 @@ def run_case(case, emit):
     known = {f"IN_{i + 1}" for i in range(ni)} | {f"S{j + 1}" for j in range(n)}
     readers = {f"S{j + 1}": {f"S{i + 1}" for i in range(j) if rm >> i & 1} | {f"IN_{i + 1}" for i in range(ni) if im >> i & 1}
                for j, (rm, im) in enumerate(case["g"])}
+    if case.get("alias"):
+        known.add("J0")
+        readers["J0"] = {"IN_1"}
+        used_inputs = sorted(set(used_inputs) | {"IN_1"})
     problems, stats = check_log(log, known, readers)
     want = {f"S{j + 1}" for j in range(n) if (not case["rop"]) or (case["pmask"] >> j & 1)}
+    if case.get("alias") and not case["rop"]:
+        want.add("J0")
     if set(res) != want:
         problems.append(("returned-names", f"returned {sorted(res)} expected {sorted(want)}"))
     for nm in used_inputs:
@@ -223,8 +248,10 @@ def run_case(case, emit):
             problems.append(("intermediate-not-released-exactly-once", f"{nm} dropped {nd} times"))
         if nd > 1:
             problems.append(("released-more-than-once", nm))
+        if nm in want and nd != 1:
+            problems.append(("returned-result-not-released-after-fetch", f"{nm} dropped {nd} times"))
     mv = model_values(case)
-    for nm in want & set(res):
+    for nm in (want & set(res)) - ({"J0"} | (set(res) if case.get("out") else set())):
         cols, rows, nk = eng.ds_rows(res[nm])
         exp = [(k, mv[nm][k]) for k in KEYS]
         d = eng.same_rowset(rows, exp, 1) if rows is not None and not isinstance(rows, tuple) else "no data"
